@@ -3,6 +3,17 @@
 # kind: rapid (default) | exhaustive | plain
 # quick/thorough: checks = total rapid cases over all shards; shards = processes; timeout = seconds per shard
 PARTS = {
+    "C18": [
+        {"test": "TestVfC18Seq", "kind": "exhaustive",
+         "quick": {"shards": 4, "timeout": 300, "params": {"maxlen": 7}},
+         "thorough": {"shards": 16, "timeout": 1500, "params": {"maxlen": 10}}},
+        {"test": "TestVfC18Forced",
+         "quick": {"checks": 600, "shards": 2, "timeout": 300},
+         "thorough": {"checks": 20000, "shards": 8, "timeout": 1500}},
+        {"test": "TestVfC18Node",
+         "quick": {"checks": 8000, "shards": 4, "timeout": 600, "gomaxprocs": [16, 2, 16, 1]},
+         "thorough": {"checks": 300000, "shards": 16, "timeout": 2400, "gomaxprocs": [16, 2, 4, 1]}},
+    ],
     "C06": [
         {"test": "TestVfC06Recipients",
          "quick": {"checks": 4000, "shards": 4, "timeout": 600},
@@ -73,6 +84,14 @@ PARTS = {
 LEVEL = {}  # default: exploration
 
 RULES = {
+    "C18": "(Seq) every enabled sequence up to the length bound over {join / leave of two peers, pull on handler A, create handler B, pull on "
+           "handler B} on the handler's event log, exhaustively; (Node) rapid histories (up to 200 ops) on a direct-driven node under all "
+           "three routers: remote subscribe / unsubscribe / disconnect / inbound-stream close on 2-5 peers interleaved with handler "
+           "creation, NextPeerEvent (immediate, blocked, two concurrent waiters, cancelled mid-wait) and handler cancellation. Oracle: per "
+           "handler the returned events fold from the empty set to exactly the topic's membership once quiet and drained; strict "
+           "join/leave alternation per peer starting with join; an event is returned iff one is pending; no call stays blocked while "
+           "events are pending (judged at synctest quiescence). Non-trivial: a join and a leave of one peer fell before either was "
+           "consumed, a handler was created while members existed, or a call was blocked waiting for an event. Distinct = case JSON.",
     "C06": "direct-driven node under floodsub, randomsub and gossipsub (scoring through the application score, direct peers, flood publish "
            "on/off, data-derived message IDs); histories (<= ~60 ops, <= 12 peers of all protocol versions) of arrivals, departures, remote "
            "subscribe/unsubscribe/GRAFT/PRUNE, IDONTWANT for messages to come, score changes around the publish threshold, direct-peer "
@@ -151,6 +170,7 @@ RULES = {
 }
 
 ASSUMPTIONS = {
+    "C18": ["the exhaustive part drives the handler's log with the notifications the event loop produces (join only for a non-member, leave only for a member); the node part checks that the event loop really does so"],
     "C06": ["the node's message ID function is data-derived so that IDONTWANT can name a message before it exists",
             "peers GRAFT only for topics they have subscribed to and a message is judged against the recipients the snapshot taken in the same instant allows"],
     "C09": ["scores are the application-specific score only (all other weights zero), so the harness knows each peer's exact score",
@@ -173,9 +193,15 @@ ASSUMPTIONS = {
     "C11": ["generated protobuf Marshal/Size in pb/ are trusted (used by the oracle to canonicalise content)"],
 }
 
-HOOK_COMMITS = ["407c3ed"]
+HOOK_COMMITS = ["407c3ed", "8f1d1a5"]
 
 META = {
+    "C18": {
+        "text": "Bounded-exhaustive enumeration on the event log (complete for the stated bound) plus stateful property-based testing of the "
+                "whole path with blocked and cancelled consumers; finds reordering, half-delivery, missing seeding, duplicate joins and lost wake-ups.",
+        "note": "Trusts synctest quiescence detection and rapid.",
+        "technique": "bounded-exhaustive model-based testing + stateful property-based testing (rapid) with fold oracle",
+    },
     "C06": {
         "text": "Stateful property-based testing with a must/may recipient oracle computed from snapshots, under all three routers; finds any "
                 "dropped exclusion or inclusion, wrong thresholds, rebuilt messages and fan-out churn within the generated bounds.",
